@@ -1,8 +1,495 @@
-import GeffModel.MetaWrite
-/-! # C10 — written metadata truthfully describes the stored data (theorems: work in progress) -/
-namespace GeffProps.C10
-open Geff.MetaW
+import GeffProofs.MetaWrite
+/-! # C10 — written metadata truthfully describes the stored data
 
-theorem C10_stub : keys ([] : List (String × PropMeta)) = [] := rfl
+Property theorems only.  Model: `Geff.MetaW` (`GeffModel/MetaWrite.lean`) — `createPropsMetadata`,
+`addOrUpdatePropsMetadata`, `computeAndAddAxisMinMax`, `createOrUpdateMetadata`,
+`updateMetadataAxes`, `axesFromLists`, `writePropsArrays`, `writeArrays` and the entry points
+`writeDicts`, `nxWrite` (networkx and rustworkx), `sgWrite` (spatial-graph) — tied to the
+implementation by `harness/corr/C10.py`.
+
+"Successful write" = the model function returns `ok w`: `w.md` is the metadata stored in
+`attrs["geff"]`, `w.nodes` / `w.edges` describe the property groups of the store (`none` = no
+`props` group; per group the name, the dtype of `values` resp. `data`, whether a `data` array and
+a `missing` array exist, the number of rows, and the rows of a fixed-shape `values` array).  With
+`structure_validation=True` (`writeArraysValidated`, the default and the scope of the property)
+success includes that `validate_structure` accepted the store; what that guarantees is `accepted`
+(property C04 proves the validator accepts exactly the conformant stores).
+
+Coordinates are an abstract type `κ` with a linear order (never floats in Lean). -/
+namespace GeffProps.C10
+open Geff.Np Geff.MetaW
+variable {κ : Type}
+
+/-! ## specification -/
+
+def storedList (g : Option (List (Stored κ))) : List (Stored κ) := g.getD []
+
+/-- the metadata entry of one stored property: right identifier, the stored dtype, the var-length
+flag iff a `data` array exists, and the caller's unit / name / description (none if the caller
+had no entry) -/
+def EntryExact (caller final : List (String × PropMeta)) (st : Stored κ) : Prop :=
+  ∃ pm, lookup st.name final = some pm ∧ pm.identifier = st.name ∧ pm.dtype = st.dtype.name ∧
+    pm.varlength = st.hasData ∧
+    (∀ c, lookup st.name caller = some c → pm.unit = c.unit ∧ pm.name = c.name ∧ pm.description = c.description) ∧
+    (lookup st.name caller = none → pm.unit = none ∧ pm.name = none ∧ pm.description = none)
+
+/-- exactly one entry per stored property, each exact -/
+def PropsExact (caller final : List (String × PropMeta)) (g : Option (List (Stored κ))) : Prop :=
+  (keys final).Nodup ∧ (∀ k, k ∈ keys final ↔ k ∈ (storedList g).map (·.name)) ∧
+  ∀ st ∈ storedList g, EntryExact caller final st
+
+/-- the caller's props-metadata is a dict (unique keys) whose keys are the identifiers (what the
+pydantic model validator enforces) -/
+def DictWF (d : List (String × PropMeta)) : Prop :=
+  (keys d).Nodup ∧ ∀ q ∈ d, q.2.identifier = q.1
+
+/-- property dicts have unique keys -/
+def PropsWF (ps : Option (List (String × PropData κ))) : Prop := ∀ l, ps = some l → (keys l).Nodup
+
+def IsMin [LE κ] (lo : κ) (l : List κ) : Prop := lo ∈ l ∧ ∀ x ∈ l, lo ≤ x
+def IsMax [LE κ] (hi : κ) (l : List κ) : Prop := hi ∈ l ∧ ∀ x ∈ l, x ≤ hi
+
+section
+variable [LT κ] [DecidableLT κ] [Min κ] [Max κ]
+
+/-- one side (nodes or edges) of `C10_props_metadata_exact` -/
+theorem side_exact (caller : List (String × PropMeta)) (hc : DictWF caller) (n : Nat)
+    (props : Option (List (String × PropData κ))) (u : Option (List (String × List String)))
+    (hp : PropsWF props) (r : Option (PropsResult κ)) (hw : writeOpt props u = .ok r)
+    (hacc : groupAccepted n (addOrUpdateDict caller (pmsOf r)) (r.map (·.2.1)) = true) :
+    PropsExact caller (addOrUpdateDict caller (pmsOf r)) (r.map (·.2.1)) := by
+  rcases writeOpt_spec hw with ⟨_, rfl⟩ | ⟨ps, ⟨pms, sts, ps'⟩, rfl, hwp, rfl⟩
+  · -- no props group: validation demands that the metadata lists nothing
+    simp only [pmsOf, Option.map_none, Option.getD_none, addOrUpdateDict_nil, groupAccepted,
+      List.isEmpty_iff] at hacc ⊢
+    subst hacc
+    exact ⟨by simp [keys], by simp [keys, storedList], by simp [storedList]⟩
+  · obtain ⟨hnd, rfl, rfl⟩ := writePropsArrays_spec hwp (hp ps rfl)
+    simp only [pmsOf, Option.map_some, Option.getD_some] at hacc ⊢
+    have hids : (ps'.map (fun q => entryOf q.1 q.2)).map (·.identifier) = keys ps' := by
+      simp [keys, List.map_map, Function.comp_def, entryOf]
+    have hnames : (ps'.map (fun q => storedOf q.1 q.2)).map (·.name) = keys ps' := by
+      simp [keys, List.map_map, Function.comp_def, storedOf_name]
+    refine ⟨addOrUpdateDict_nodup _ _ hc.1, ?_, ?_⟩
+    · intro k
+      simp only [storedList, Option.getD_some, hnames]
+      constructor
+      · intro hk
+        simp only [groupAccepted, Bool.and_eq_true, List.all_eq_true] at hacc
+        have := hacc.1 k hk
+        simpa [hnames] using this
+      · intro hk
+        rw [addOrUpdateDict_keys, hids]; exact Or.inr hk
+    · intro st hst
+      simp only [storedList, Option.getD_some, List.mem_map] at hst
+      obtain ⟨⟨name, p'⟩, hq, rfl⟩ := hst
+      have hmem : entryOf name p' ∈ ps'.map (fun q => entryOf q.1 q.2) :=
+        List.mem_map.2 ⟨(name, p'), hq, rfl⟩
+      have hhit := addOrUpdateDict_hit caller _ (by rw [hids]; exact hnd) (entryOf name p') hmem
+      simp only [EntryExact, storedOf_name]
+      have hid : (entryOf name p').identifier = name := rfl
+      rw [hid] at hhit
+      cases hl : lookup name caller with
+      | none =>
+        rw [hl] at hhit
+        exact ⟨entryOf name p', hhit, rfl, rfl, rfl, fun c hc' => by simp at hc', fun _ => ⟨rfl, rfl, rfl⟩⟩
+      | some c =>
+        rw [hl] at hhit
+        refine ⟨upd (entryOf name p') c, hhit, ?_, rfl, rfl, ?_, fun h' => by simp at h'⟩
+        · exact hc.2 (name, c) (lookup_mem' hl)
+        · intro c' hc'
+          simp only [Option.some.injEq] at hc'
+          subst hc'
+          exact ⟨rfl, rfl, rfl⟩
+
+/-! ## write_arrays -/
+
+/-- **C10 (props metadata, write_arrays)** — after a successful validated write the stored
+`node_props_metadata` has exactly one entry per stored node property (and none otherwise), each
+with the stored dtype and `varlength` iff a `data` array was stored, keeping the caller's unit /
+name / description; the same for edges.  For every caller metadata (stale, absent or wrong
+entries included), every property dict (or `None`), with and without un-squishing. -/
+theorem C10_props_metadata_exact (md : Meta κ) (n e : Nat) (np ep : Option (List (String × PropData κ)))
+    (nu eu : Option (List (String × List String))) (w : Written κ)
+    (hmdn : DictWF md.nodeProps) (hmde : DictWF md.edgeProps) (hnp : PropsWF np) (hep : PropsWF ep)
+    (h : writeArraysValidated md n e np ep nu eu = .ok w) :
+    PropsExact md.nodeProps w.md.nodeProps w.nodes ∧ PropsExact md.edgeProps w.md.edgeProps w.edges := by
+  unfold writeArraysValidated at h
+  obtain ⟨w', hw, h2⟩ := bind_eq_ok h
+  by_cases hacc : accepted n e w' = true
+  · simp only [hacc, if_true, pure_eq, Except.ok.injEq] at h2
+    subst h2
+    obtain ⟨nodeRes, edgeRes, h1, h2, h3, hn, he⟩ := writeArrays_spec hw
+    obtain ⟨f1, f2, -⟩ := finishMeta_props h3
+    simp only [accepted, Bool.and_eq_true] at hacc
+    have hnp' : PropsWF (addEmptyAxisProps md n np) := by
+      intro l hl
+      cases hnp0 : np with
+      | none => simp [addEmptyAxisProps, hnp0] at hl
+      | some ps => rw [hnp0] at hl; exact addEmptyAxisProps_nodup md n ps l hl (hnp ps hnp0)
+    have e1 : w'.md.nodeProps = addOrUpdateDict md.nodeProps (pmsOf nodeRes) := by
+      rw [f1]; simp [addOrUpdatePropsMetadata]
+    have e2 : w'.md.edgeProps = addOrUpdateDict md.edgeProps (pmsOf edgeRes) := by
+      rw [f2]; simp [addOrUpdatePropsMetadata]
+    rw [e1, e2, hn, he]
+    rw [e1, hn] at hacc
+    rw [e2, he] at hacc
+    exact ⟨side_exact _ hmdn n _ nu hnp' nodeRes h1 hacc.1.1, side_exact _ hmde e _ eu hep edgeRes h2 hacc.1.2⟩
+  · simp [hacc] at h2
+
+/-- **C10 (pass-through, write_arrays)** — every successful `write_arrays` (validated or not)
+stores `extra`, related objects, display hints, sphere / ellipsoid / track property names (`rest`,
+`hintNames`), the directed flag and the version unchanged, and every axis with its name, type,
+unit, scale, scaled unit and offset unchanged (only min/max may differ). -/
+theorem C10_passthrough (md : Meta κ) (n : Nat) (np ep : Option (List (String × PropData κ)))
+    (nu eu : Option (List (String × List String))) (w : Written κ)
+    (h : writeArrays md n np ep nu eu = .ok w) :
+    w.md.rest = md.rest ∧ w.md.hintNames = md.hintNames ∧ w.md.directed = md.directed ∧
+    w.md.geffVersion = md.geffVersion ∧ w.md.axes.map (·.map strip) = md.axes.map (·.map strip) := by
+  obtain ⟨nodeRes, edgeRes, -, -, h3, -, -⟩ := writeArrays_spec h
+  obtain ⟨-, -, f3, f4, f5, f6, f7⟩ := finishMeta_props h3
+  refine ⟨?_, ?_, ?_, ?_, ?_⟩
+  · rw [f3]; simp [addOrUpdatePropsMetadata]
+  · rw [f4]; simp [addOrUpdatePropsMetadata]
+  · rw [f5]; simp [addOrUpdatePropsMetadata]
+  · rw [f6]; simp [addOrUpdatePropsMetadata]
+  · rw [f7]; simp [addOrUpdatePropsMetadata]
+
+end
+section
+variable [LT κ] [DecidableLT κ] [Min κ] [Max κ] [LE κ] [Std.IsLinearOrder κ] [Std.LawfulOrderMin κ]
+  [Std.LawfulOrderMax κ]
+
+/-- every stored axis names a stored 1-D node property without missing mask that has one
+coordinate per node, and its `min` / `max` are the least / greatest stored coordinate -/
+def AxisRange (n : Nat) (w : Written κ) : Prop :=
+  ∀ axes, w.md.axes = some axes → ∀ a ∈ axes, ∃ sts st lo hi,
+    w.nodes = some sts ∧ sts.find? (fun s => s.name = a.name) = some st ∧
+    st.ndim = 1 ∧ st.hasMissing = false ∧ st.rows.length = n ∧
+    a.min = some lo ∧ a.max = some hi ∧ IsMin lo st.rows.flatten ∧ IsMax hi st.rows.flatten
+
+/-- **C10 (axis range, write_arrays)** — after a successful validated write of a non-empty graph,
+every stored axis names a stored 1-D node property without missing mask, with one coordinate per
+node, and its `min` / `max` are the least / greatest of those stored coordinates — whatever range
+the caller's metadata carried before. -/
+theorem C10_axis_range (md : Meta κ) (n e : Nat) (np ep : Option (List (String × PropData κ)))
+    (nu eu : Option (List (String × List String))) (w : Written κ) (hn : 0 < n)
+    (h : writeArraysValidated md n e np ep nu eu = .ok w) : AxisRange n w := by
+  unfold AxisRange
+  unfold writeArraysValidated at h
+  obtain ⟨w', hw, h2⟩ := bind_eq_ok h
+  by_cases hacc : accepted n e w' = true
+  · simp only [hacc, if_true, pure_eq, Except.ok.injEq] at h2
+    subst h2
+    intro axes hax a ha
+    obtain ⟨nodeRes, edgeRes, h1, -, h3, hnodes, -⟩ := writeArrays_spec hw
+    simp only [accepted, Bool.and_eq_true] at hacc
+    obtain ⟨⟨hga, -⟩, haa⟩ := hacc
+    -- validation: the axis names a stored 1-D property without missing mask
+    simp only [axesAccepted, hax, List.all_eq_true] at haa
+    have haa' := haa a ha
+    cases hsts : w'.nodes with
+    | none => simp [hsts] at haa'
+    | some sts =>
+      simp only [hsts] at haa'
+      cases hf : sts.find? (fun st => decide (st.name = a.name)) with
+      | none => simp [hf] at haa'
+      | some st =>
+        simp only [hf, Bool.and_eq_true, decide_eq_true_eq, Bool.not_eq_true'] at haa'
+        have hstmem : st ∈ sts := List.mem_of_find?_eq_some hf
+        -- … with one row per node
+        simp only [groupAccepted, hsts, Bool.and_eq_true, List.all_eq_true, decide_eq_true_eq] at hga
+        have hlen : st.len = n := (hga.2 st hstmem).1.2
+        -- the node properties went through `write_props_arrays`
+        rw [hnodes] at hsts
+        cases nodeRes with
+        | none => simp at hsts
+        | some r =>
+          obtain ⟨pms, sts0, ps'⟩ := r
+          simp only [Option.map_some, Option.some.injEq] at hsts
+          subst hsts
+          rcases writeOpt_spec h1 with ⟨_, hc⟩ | ⟨ps, b, hps, hwp, hb⟩
+          · cases hc
+          · simp only [Option.some.injEq] at hb
+            subst hb
+            have hst1 := writePropsArrays_stored hwp
+            -- the stored axes come out of `compute_and_add_axis_min_max` on that dict
+            simp only [finishMeta] at h3
+            rcases computeMinMax_spec h3 with ⟨hnone, hmd⟩ | ⟨axes0, axes', -, hm, hmd⟩
+            · rw [← hmd] at hnone; rw [hax] at hnone; cases hnone
+            · rw [hmd] at hax
+              simp only [Option.some.injEq] at hax
+              subst hax
+              obtain ⟨a0, -, ha0⟩ := mapM_mem hm a ha
+              obtain ⟨hstrip, p, hl, -, hpos⟩ := axisMinMax_spec ha0
+              have hname : a.name = a0.name := by
+                have := congrArg Axis.name hstrip; simpa [strip] using this
+              -- the property found by name in the dict is the group found by name in the store
+              rw [hst1, find_map_storedOf, hname, hl] at hf
+              simp only [Option.map_some, Option.some.injEq] at hf
+              subst hf
+              have hlen' : p.values.len ≠ 0 := by
+                have : (storedOf a0.name p).len = p.values.len := by
+                  unfold storedOf Values.len; cases p.values <;> rfl
+                omega
+              obtain ⟨dt, tr, rows, vals, lo, hi, hv, hk, hlo, hhi, hmin, hmax⟩ := hpos hlen'
+              have hmiss : p.missing = none := by
+                have := haa'.2
+                unfold storedOf at this
+                rw [hv] at this
+                simpa using this
+              have hrows : (storedOf a0.name p).rows = rows := by unfold storedOf; rw [hv]
+              have hvals : vals = rows.flatten := by
+                rw [hmiss] at hk
+                simpa [keptValues] using hk.symm
+              subst hvals
+              refine ⟨_, _, lo, hi, rfl, ?_, haa'.1, haa'.2, ?_, hmin, hmax, ?_, ?_⟩
+              · rw [hst1, find_map_storedOf, hname, hl]; rfl
+              · rw [hrows]
+                have : (storedOf a0.name p).len = rows.length := by unfold storedOf; rw [hv]
+                omega
+              · rw [hrows]; exact List.min?_eq_some_iff.1 hlo
+              · rw [hrows]; exact List.max?_eq_some_iff.1 hhi
+  · simp [hacc] at h2
+
+end
+
+section
+variable [LT κ] [DecidableLT κ] [Min κ] [Max κ] [LE κ] [Std.IsLinearOrder κ] [Std.LawfulOrderMin κ]
+  [Std.LawfulOrderMax κ]
+
+/-- the data-independent part of what is stored, relative to the metadata `md` handed to `write_arrays` -/
+def PassThrough (md : Meta κ) (w : Written κ) : Prop :=
+  w.md.rest = md.rest ∧ w.md.hintNames = md.hintNames ∧ w.md.directed = md.directed ∧
+  w.md.geffVersion = md.geffVersion ∧ w.md.axes.map (·.map strip) = md.axes.map (·.map strip)
+
+/-! ## write_dicts -/
+
+/-- **C10 for `write_dicts`** — the three statements for a successful `write_dicts` (the property
+dicts are what `dict_props_to_arr` built from the per-node / per-edge dicts). -/
+theorem C10_write_dicts (md : Meta κ) (n e : Nat) (np ep : List (String × PropData κ)) (w : Written κ)
+    (hmdn : DictWF md.nodeProps) (hmde : DictWF md.edgeProps) (hnp : (keys np).Nodup) (hep : (keys ep).Nodup)
+    (h : writeDicts md n e np ep = .ok w) :
+    PropsExact md.nodeProps w.md.nodeProps w.nodes ∧ PropsExact md.edgeProps w.md.edgeProps w.edges ∧
+    PassThrough md w ∧ (0 < n → AxisRange n w) := by
+  unfold writeDicts at h
+  have hp1 : PropsWF (some np) := fun l hl => by cases hl; exact hnp
+  have hp2 : PropsWF (some ep) := fun l hl => by cases hl; exact hep
+  obtain ⟨a, b⟩ := C10_props_metadata_exact md n e _ _ _ _ w hmdn hmde hp1 hp2 h
+  exact ⟨a, b, C10_passthrough md n _ _ _ _ w (validated_ok h), fun hn => C10_axis_range md n e _ _ _ _ w hn h⟩
+
+/-! ## networkx / rustworkx -/
+
+/-- **C10 for `geff.write` on a networkx or rustworkx graph** — `md` is the caller's metadata or
+`none`, `isDirected` the directedness of the graph object, `ls` the `axis_*` arguments. -/
+theorem C10_networkx_rustworkx (version : String) (md : Option (Meta κ)) (isDirected : Bool) (ls : AxisLists)
+    (n e : Nat) (np ep : List (String × PropData κ)) (w : Written κ)
+    (hmd : ∀ m, md = some m → DictWF m.nodeProps ∧ DictWF m.edgeProps)
+    (hnp : (keys np).Nodup) (hep : (keys ep).Nodup)
+    (h : nxWrite version md isDirected ls n e np ep = .ok w) :
+    PropsExact (callerNodeProps md) w.md.nodeProps w.nodes ∧
+    PropsExact (callerEdgeProps md) w.md.edgeProps w.edges ∧
+    w.md.directed = isDirected ∧ w.md.rest = callerRest md ∧ w.md.hintNames = callerHints md ∧
+    (ls.names = none → w.md.axes.map (·.map strip) = (md.bind (·.axes)).map (·.map strip)) ∧
+    (ls.names ≠ none → ∃ axes0 : List (Axis κ), axesFromLists ls none none = .ok axes0 ∧
+      w.md.axes.map (·.map strip) = some (axes0.map strip)) ∧
+    (0 < n → AxisRange n w) := by
+  unfold nxWrite at h
+  obtain ⟨m1, h1, h⟩ := bind_eq_ok h
+  obtain ⟨m2, h2, h⟩ := bind_eq_ok h
+  obtain ⟨c1, c2, c3, c4, c5, c6, c7⟩ := createOrUpdate_spec h1
+  have hwf : DictWF m1.nodeProps ∧ DictWF m1.edgeProps := by
+    rw [c3, c4]
+    cases md with
+    | none => exact ⟨⟨by simp [callerNodeProps, keys], by simp [callerNodeProps]⟩,
+                     ⟨by simp [callerEdgeProps, keys], by simp [callerEdgeProps]⟩⟩
+    | some m => exact hmd m rfl
+  -- `update_metadata_axes` only replaces the axes
+  have hm2 : m2.nodeProps = m1.nodeProps ∧ m2.edgeProps = m1.edgeProps ∧ m2.rest = m1.rest ∧
+      m2.hintNames = m1.hintNames ∧ m2.directed = m1.directed ∧
+      (ls.names = none → m2.axes = m1.axes) ∧
+      (ls.names ≠ none → ∃ axes0 : List (Axis κ), axesFromLists ls none none = .ok axes0 ∧ m2.axes = some axes0) := by
+    cases hn : ls.names with
+    | none =>
+      simp only [hn, Except.ok.injEq] at h2
+      subst h2
+      exact ⟨rfl, rfl, rfl, rfl, rfl, fun _ => rfl, fun hne => absurd rfl hne⟩
+    | some names =>
+      simp only [hn] at h2
+      obtain ⟨axes0, ha, rfl⟩ := updateMetadataAxes_spec h2
+      exact ⟨rfl, rfl, rfl, rfl, rfl, fun hh => by simp at hh, fun _ => ⟨axes0, ha, rfl⟩⟩
+  obtain ⟨d1, d2, d3, d4, d5, d6, d7⟩ := hm2
+  obtain ⟨a, b, ⟨p1, p2, p3, p4, p5⟩, r⟩ :=
+    C10_write_dicts m2 n e np ep w (by rw [d1]; exact hwf.1) (by rw [d2]; exact hwf.2) hnp hep h
+  refine ⟨by rw [← c3, ← d1]; exact a, by rw [← c4, ← d2]; exact b, by rw [p3, d5, c2], by rw [p1, d3, c5],
+    by rw [p2, d4, c6], ?_, ?_, r⟩
+  · intro hn
+    rw [p5, d6 hn, c7]; simp
+  · intro hn
+    obtain ⟨axes0, ha, hm⟩ := d7 hn
+    exact ⟨axes0, ha, by rw [p5, hm]; rfl⟩
+
+end
+
+section
+variable [LT κ] [DecidableLT κ] [Min κ] [Max κ] [LE κ] [Std.IsLinearOrder κ] [Std.LawfulOrderMin κ]
+  [Std.LawfulOrderMax κ]
+
+/-! ## spatial-graph -/
+
+/-- **C10 for `geff.write` on a spatial-graph graph** — `roiMin`/`roiMax` = `graph.roi`,
+`np` = the position and attribute arrays of the graph (the position is un-squished into the axis
+names).  The stored axes are the ones `axes_from_lists` builds from `sgLists md ls n`: the caller's
+lists when `axis_names` is given, otherwise the names AND every non-overridden field of the
+metadata's axes (D20 repair). -/
+theorem C10_spatial_graph (version : String) (md : Option (Meta κ)) (isDirected : Bool) (ls : AxisLists)
+    (ndims n e : Nat) (roiMin roiMax : List κ) (pos : String) (np ep : List (String × PropData κ))
+    (w : Written κ)
+    (hmd : ∀ m, md = some m → DictWF m.nodeProps ∧ DictWF m.edgeProps)
+    (hnp : (keys np).Nodup) (hep : (keys ep).Nodup)
+    (h : sgWrite version md isDirected ls ndims n e roiMin roiMax pos np ep = .ok w) :
+    PropsExact (callerNodeProps md) w.md.nodeProps w.nodes ∧
+    PropsExact (callerEdgeProps md) w.md.edgeProps w.edges ∧
+    w.md.directed = isDirected ∧ w.md.rest = callerRest md ∧ w.md.hintNames = callerHints md ∧
+    (∃ (ls' : AxisLists) (axes0 : List (Axis κ)), sgLists md ls n = .ok ls' ∧
+      axesFromLists ls' (some (roiMin.map some)) (some (roiMax.map some)) = .ok axes0 ∧
+      w.md.axes.map (·.map strip) = some (axes0.map strip)) ∧
+    (0 < n → AxisRange n w) := by
+  unfold sgWrite at h
+  obtain ⟨ls', h0, h⟩ := bind_eq_ok h
+  obtain ⟨axes0, h1, h⟩ := bind_eq_ok h
+  obtain ⟨m, h2, h⟩ := bind_eq_ok h
+  split at h
+  · cases h
+  · obtain ⟨c1, c2, c3, c4, c5, c6, c7⟩ := createOrUpdate_spec h2
+    have hwf : DictWF m.nodeProps ∧ DictWF m.edgeProps := by
+      rw [c3, c4]
+      cases md with
+      | none => exact ⟨⟨by simp [callerNodeProps, keys], by simp [callerNodeProps]⟩,
+                       ⟨by simp [callerEdgeProps, keys], by simp [callerEdgeProps]⟩⟩
+      | some m => exact hmd m rfl
+    have hp1 : PropsWF (some np) := fun l hl => by cases hl; exact hnp
+    have hp2 : PropsWF (some ep) := fun l hl => by cases hl; exact hep
+    obtain ⟨a, b⟩ := C10_props_metadata_exact m n e _ _ _ _ w hwf.1 hwf.2 hp1 hp2 h
+    obtain ⟨p1, p2, p3, p4, p5⟩ := C10_passthrough m n _ _ _ _ w (validated_ok h)
+    refine ⟨by rw [← c3]; exact a, by rw [← c4]; exact b, by rw [p3, c2], by rw [p1, c5], by rw [p2, c6],
+      ⟨ls', axes0, h0, h1, by rw [p5, c7]; rfl⟩, fun hn => C10_axis_range m n e _ _ _ _ w hn h⟩
+
+omit [Min κ] [Max κ] [LE κ] [Std.IsLinearOrder κ] [Std.LawfulOrderMin κ] [Std.LawfulOrderMax κ] in
+/-- **D20 (repaired)** — when the axes come from the caller's metadata and no `axis_*` list is
+given, the axes `SgBackend.write` builds keep every caller field: only min/max (= `graph.roi`,
+recomputed from the data afterwards) differ. -/
+theorem C10_sg_keeps_caller_axes (m : Meta κ) (axes : List (Axis κ)) (n : Nat) (ls' : AxisLists)
+    (roiMin roiMax : Option (List (Option κ))) (axes0 : List (Axis κ)) (hax : m.axes = some axes)
+    (h0 : sgLists (some m) { names := none, units := none, types := none, scales := none,
+                             scaledUnits := none, offset := none } n = .ok ls')
+    (h1 : axesFromLists ls' roiMin roiMax = .ok axes0) : axes0.map strip = axes.map strip := by
+  simp only [sgLists, Option.bind_some, hax, Option.getD_none, Except.ok.injEq] at h0
+  subst h0
+  obtain ⟨hlen, hj, -⟩ := axesFromLists_spec (names := axes.map (·.name)) rfl h1
+  apply List.ext_getElem?
+  intro j
+  simp only [List.getElem?_map]
+  cases ha0 : axes0[j]? with
+  | none =>
+    have : axes[j]? = none := by
+      rw [List.getElem?_eq_none_iff] at ha0 ⊢
+      simpa [hlen] using ha0
+    simp [this]
+  | some a0 =>
+    have hlt : j < axes.length := by
+      have := (List.getElem?_eq_some_iff.1 ha0).1
+      simpa [hlen] using this
+    have hja : axes[j]? = some axes[j] := List.getElem?_eq_getElem hlt
+    obtain ⟨f1, f2, f3, f4, f5, f6, -, -⟩ := hj j axes[j].name a0 (by simp [hja]) ha0
+    simp only [pick, List.getElem?_map, hja, Option.map_some, Except.ok.injEq] at f2 f3 f4 f5 f6
+    simp only [hja, Option.map_some, Option.some.injEq]
+    cases a0
+    simp only [strip] at *
+    simp [f1, ← f2, ← f3, ← f4, ← f5, ← f6]
+
+end
+
+section
+variable [LT κ] [DecidableLT κ]
+
+/-- **D17 (repaired)** — `axes_from_lists` succeeds only when every given `axis_*` list
+(`axis_offset` included) has exactly one entry per axis name, and then axis `j` carries entry `j`
+of every list. -/
+theorem C10_axes_from_lists (ls : AxisLists) (roiMin roiMax : Option (List (Option κ))) (names : List String)
+    (axes : List (Axis κ)) (hn : ls.names = some names) (h : axesFromLists ls roiMin roiMax = .ok axes) :
+    axes.length = names.length ∧
+    (∀ j n a, names[j]? = some n → axes[j]? = some a → FromLists ls roiMin roiMax j n a) ∧
+    lenOk ls.units names.length = true ∧ lenOk ls.types names.length = true ∧
+    lenOk ls.scales names.length = true ∧ lenOk ls.scaledUnits names.length = true ∧
+    lenOk ls.offset names.length = true :=
+  axesFromLists_spec hn h
+
+end
+
+/-! ## non-vacuity: concrete writes (coordinates in `Int`) meet the hypotheses and succeed -/
+
+def exMd : Meta Int :=
+  { geffVersion := "1.3", directed := true,
+    axes := some [{ name := "x", type := some "space", unit := some "pixel", min := some 100, max := some 200,
+                    scale := some "0.5", scaledUnit := none, offset := some "2.0" }],
+    nodeProps := [("x", { identifier := "x", dtype := "int8", varlength := true, unit := some "um",
+                          name := none, description := some "stale dtype and flag" })],
+    edgeProps := [], hintNames := [], rest := "{\"extra\": {\"k\": 1}}" }
+
+def exNodes : List (String × PropData Int) :=
+  [("x", { values := .dense .f64 [] [[3], [-1], [7]], missing := none }),
+   ("v", { values := .object [(.i64, 1), (.i64, 1), (.i64, 1)], missing := some [false, true, false] })]
+
+def exW : Option (Written Int) := (writeArraysValidated exMd 3 0 (some exNodes) (some []) none none).toOption
+
+example : DictWF exMd.nodeProps ∧ DictWF exMd.edgeProps ∧ PropsWF (some exNodes) := by
+  refine ⟨⟨by decide, by decide⟩, ⟨by decide, by decide⟩, fun l hl => by cases hl; decide⟩
+example : exW.isSome = true := by decide
+/-- the stale range 100..200 is replaced by the range of the stored coordinates; scale and offset stay -/
+example : (exW.bind (fun w => w.md.axes)).map (·.map (fun a => (a.min, a.max))) = some [(some (-1), some 7)] := by
+  decide
+example : (exW.bind (fun w => w.md.axes)).map (·.map (fun a => (a.scale, a.offset))) =
+    some [(some "0.5", some "2.0")] := by decide
+/-- the stale dtype / var-length flag are replaced, the caller's unit survives, `v` gets an entry -/
+example : exW.map (fun w => w.md.nodeProps.map (fun q => (q.1, q.2.dtype, q.2.varlength))) =
+    some [("x", "float64", false), ("v", "int64", true)] := by decide
+example : exW.map (fun w => w.md.nodeProps.map (fun q => (q.1, q.2.unit))) =
+    some [("x", some "um"), ("v", none)] := by decide
+
+def exStale : Meta Int :=
+  { exMd with
+    edgeProps := [("gone", { identifier := "gone", dtype := "int8", varlength := false, unit := none,
+                             name := none, description := none })] }
+
+/-- a stale entry for a property that is not written is refused by validation -/
+example : (writeArraysValidated exStale 3 0 (some exNodes) none none none).toOption = none := by decide
+
+def exLists : AxisLists :=
+  { names := some ["x"], units := some [some "meter"], types := none, scales := none, scaledUnits := none,
+    offset := some [some "1.0"] }
+
+def noLists : AxisLists :=
+  { names := none, units := none, types := none, scales := none, scaledUnits := none, offset := none }
+
+def exNx : Option (Written Int) := (nxWrite "1.3" (some exMd) false exLists 3 0 exNodes []).toOption
+
+/-- the networkx / spatial-graph entry points succeed on concrete inputs too -/
+example : exNx.map (fun w => w.md.directed) = some false := by decide
+example : (exNx.bind (fun w => w.md.axes)).map (·.map (fun a => (a.unit, a.offset))) =
+    some [(some "meter", some "1.0")] := by decide
+example : (exNx.bind (fun w => w.md.axes)).map (·.map (fun a => (a.min, a.max))) =
+    some [(some (-1), some 7)] := by decide
+
+def exSg : Option (Written Int) :=
+  (sgWrite "1.3" (some exMd) true noLists 1 3 0 [-1] [7] "position"
+    [("position", { values := .dense .f64 [1] [[3], [-1], [7]], missing := none })] []).toOption
+
+example : (exSg.bind (fun w => w.md.axes)).map (·.map (fun a => (a.name, a.type, a.unit))) =
+    some [("x", some "space", some "pixel")] := by decide
+example : (exSg.bind (fun w => w.md.axes)).map (·.map (fun a => (a.scale, a.offset))) =
+    some [(some "0.5", some "2.0")] := by decide
+example : (exSg.bind (fun w => w.md.axes)).map (·.map (fun a => (a.min, a.max))) =
+    some [(some (-1), some 7)] := by decide
 
 end GeffProps.C10
